@@ -53,7 +53,7 @@ struct Tk { int t; bool prot_ok; bool intact; bool enc;
             bool seq_zero = false;     // ... and the resulting number is 0
             bool seq_bad = false;      // DTLS: handshake message_seq is not the next one (gap or repeat): ignored as future / as retransmission
           };
-struct Verdict { int viol_at = -1, done_at = -1, unk_at = -1; bool weak = false; std::string why, sig; };   // sig: failure signature (root-cause class) to use if the victim completes anyway
+struct Verdict { int viol_at = -1, done_at = -1, unk_at = -1; bool weak = false; std::string why, sig; std::vector<int> hr_at; };   // hr_at: HelloRequests sent to a client mid-handshake (refuse or ignore)   // sig: failure signature (root-cause class) to use if the victim completes anyway
 // Legal sequences of handshake/CCS messages a victim may RECEIVE (RFC 5246 7.3, RFC 5077 not negotiated, no renegotiation):
 //   server victim : CH [CERT]* CKE [CV]* CCS FIN                 (* present iff the server requested a certificate; CERT non-empty is policy)
 //   client victim : SH CERT [SKE iff ECDHE] [CR] SHD CCS FIN
@@ -99,6 +99,10 @@ static Verdict judge(bool victim_server, bool ecdhe, bool cauth, bool resumed, c
             if (x.enc && x.t == T_CCS) v.sig = "completed-with-bad-ccs";   // ciphertext in a plaintext CCS record = a CCS body that is not the single byte 01
             break; }
         if (x.t == T_WARN) { v.weak = true; continue; }
+        // HelloRequest to a client (RFC 5246 7.4.1.1): never hashed.  After completion a client that does not renegotiate may ignore it or answer no_renegotiation
+        // (MatrixSSL: warning, carries on) - no verdict.  While a handshake is in progress it "will be ignored" - or refused outright (MatrixSSL: unexpected_message);
+        // which of the two is read off the victim (dead right at that record or not): an IGNORED one must leave the rest of the trace exactly as it was.
+        if (x.t == T_HR && !victim_server && !dtls && x.intact && x.prot_ok && k < e.size()) { v.hr_at.push_back((int) i); continue; }
         if (x.t == T_HR && !victim_server) { v.weak = true; continue; }   // also with a non-empty body: MatrixSSL answers any type-0 message after the handshake with a no_renegotiation warning and carries on
         if (k == e.size()) {   // handshake complete
             if (x.t == T_APP) continue;
@@ -176,6 +180,7 @@ struct Outcome {
     bool dead = false; std::vector<char> reached;          // victim was alive when item i was delivered
     Bytes delivered; std::vector<Bytes> delivered_msgs; bool early_delivery = false;
     bool puppet_fin_ok = false; std::string puppet_err; Bytes puppet_app_in; bool ems_active = false; int last_rc = 0; int alert_from_victim = -1;
+    std::vector<int> batch; int dead_batch = -1;   // delivery batch of every item; batch in which the victim was first seen dead
     bool open_failed = false, resumed = false, victim_sent_nst = false; size_t ch_sid_len = 0, ch_ticket_len = 0;
 };
 
@@ -241,14 +246,15 @@ static Outcome run_trace(const Mode &m, const std::vector<Item> &items, size_t c
         for (auto &r : parse_records(b, true)) { if (!V.ssl || victim_dead(V)) break; V.feed_dgram(Bytes(b.begin() + r.off, b.begin() + r.off + r.hdr + r.len)); observe(-2); V.pump_out(); }
     };
     from_victim();
-    Bytes acc; size_t first = 0;
+    Bytes acc; size_t first = 0; int nbatch = 0; o.batch.assign(items.size(), -1);
     for (size_t i = 0; i < items.size(); i++) {
         Bytes b = P.emit(items[i].st); acc.insert(acc.end(), b.begin(), b.end());
-        if (items[i].join && i + 1 < items.size()) continue;
+        if ((items[i].join || (items[i].st.coalesce && b.empty())) && i + 1 < items.size()) continue;   // delivered together with the next item (same receive call / same record)
         bool alive = V.ssl && !victim_dead(V);
-        for (size_t j = first; j <= i; j++) o.reached[j] = alive;
+        for (size_t j = first; j <= i; j++) { o.reached[j] = alive; o.batch[j] = nbatch; }
         first = i + 1;
-        if (alive && !acc.empty()) to_victim(acc);
+        if (alive && !acc.empty()) { to_victim(acc); if (victim_dead(V) && o.dead_batch < 0) o.dead_batch = nbatch; }
+        nbatch++;
         acc.clear();
         observe((int) i);
         from_victim();
@@ -305,8 +311,8 @@ static const std::string &selftest(const Mode &m) {
 }
 
 // ------------------------------------------------------------------ deviation ops
-enum { O_DEL, O_DUP, O_SWAP, O_RETAG, O_SUBST, O_INJECT, O_FLIPFIN, O_PROT, O_MODE, O_CCSBODY, O_SECRET, O_FINFRAG, O_CVFRAG, O_BODYLEN, O_EPOCH, O_SEQ, O_N };
-static const char *op_name[] = { "delete", "duplicate", "swap", "retag", "substitute", "inject", "flip-finished", "wrong-protection", "trace-of-other-mode", "ccs-body", "wrong-session-secret", "fragmented-finished", "fragmented-certificate-verify", "wrong-body-length", "wrong-epoch", "message-seq" };
+enum { O_DEL, O_DUP, O_SWAP, O_RETAG, O_SUBST, O_INJECT, O_FLIPFIN, O_PROT, O_MODE, O_CCSBODY, O_SECRET, O_FINFRAG, O_CVFRAG, O_BODYLEN, O_EPOCH, O_SEQ, O_HR, O_N };
+static const char *op_name[] = { "delete", "duplicate", "swap", "retag", "substitute", "inject", "flip-finished", "wrong-protection", "trace-of-other-mode", "ccs-body", "wrong-session-secret", "fragmented-finished", "fragmented-certificate-verify", "wrong-body-length", "wrong-epoch", "message-seq", "hello-request" };
 struct Op { int kind = -1, pos = 0, arg = 0; std::string text; };
 
 static int item_tok(const Item &x) { return x.st.type_override >= 0 ? tok_of_hs_type(x.st.type_override) : tok_of_msg(x.st.msg); }
@@ -370,6 +376,13 @@ static bool apply_op(Op &op, std::vector<Item> &it, const Mode &m) {
         static const std::vector<Bytes> bodies = { { 1, 1 }, { 1, 0 }, { 1, 2, 3, 4, 5, 6, 7, 8, 9, 10, 11, 12, 13, 14, 15, 16, 17, 18, 19, 20 }, { 2 }, { 0 }, { 0, 1 } };
         op.pos = f; op.arg = (int) ((unsigned) op.arg % bodies.size()); it[f].st.payload = bodies[op.arg];
         op.text = fmt("ccs-body@%d(%s)", f, hex(bodies[op.arg].data(), bodies[op.arg].size(), 4).c_str()); return true;
+    }
+    case O_HR: {   // a HelloRequest in front of item pos (pos == n: at the end), in a record of its own or (arg 1) sharing the record with the next handshake message
+        if (!in(n + 1)) break;
+        Item x; x.st = Step(pup::M_HELLO_REQUEST);
+        bool co = (op.arg & 1) && (size_t) pos < n && is_hs_item(it[pos]) && !it[pos].st.frag && !it[pos].st.frag_count && it[pos].st.prot == pup::P_STATE;
+        x.st.coalesce = co;
+        op.text = fmt("hello-request@%d(%s)", pos, co ? "same record as next" : "own record"); it.insert(it.begin() + pos, x); return true;
     }
     case O_BODYLEN: {   // Finished (arg even) / CertificateVerify (arg odd) whose body has the wrong length: honest prefix, or honest body + trailing zero bytes
         int want = (op.arg & 1) ? pup::M_CERTIFICATE_VERIFY : pup::M_FINISHED, f = -1; for (size_t i = 0; i < n; i++) if (it[i].st.msg == want) f = (int) i;
@@ -442,6 +455,7 @@ static Op draw_op(Tape &t, const std::vector<Item> &it) {
     case O_BODYLEN: op.arg = (int) t.below(12); break;
     case O_EPOCH: op.pos = (int) t.below(n); op.arg = t.coin(); break;
     case O_SEQ: op.pos = (int) t.below(n); op.arg = (int) t.below(3); break;
+    case O_HR: op.pos = (int) t.below(n + 1); op.arg = t.coin(); break;
     }
     return op;
 }
@@ -466,6 +480,7 @@ static std::vector<Op> all_singles(const Mode &m) {
     for (int a = 0; a < 12; a++) add(O_BODYLEN, 0, a);
     for (int i = 0; i < n; i++) for (int a = 0; a < 2; a++) add(O_EPOCH, i, a);
     for (int i = 0; i < n; i++) for (int a = 0; a < 3; a++) add(O_SEQ, i, a);
+    for (int i = 0; i <= n; i++) for (int a = 0; a < 2; a++) add(O_HR, i, a);
     return r;
 }
 // the modes of the bounded-exhaustive target
@@ -624,6 +639,10 @@ static void prop(Tape &t, Ctx &c) {
     if (o.open_failed) throw Discard{};
     if (c.verbose) fprintf(stderr, "  outcome: complete=%d(after %d) dead=%d rc=%d delivered=%zu alert_from_victim=%d puppet_err=%s\n", o.ever_complete, o.complete_after, o.dead, o.last_rc, o.delivered.size(), o.alert_from_victim, o.puppet_err.c_str());
 
+    // HelloRequest to a client mid-handshake: refused (victim dead right at the record that carried it) -> receiver-may-refuse; otherwise it was ignored and the verdict stands
+    bool hr_ignored = false;
+    for (int h : v.hr_at) { if (o.dead_batch >= 0 && o.batch[h] == o.dead_batch) { v.weak = true; c.count("hello-request-refused"); } else if (o.reached[h] && (o.dead_batch < 0 || o.batch[h] < o.dead_batch)) hr_ignored = true; }
+    if (hr_ignored) c.count("hello-request-ignored");
     // ---- safety invariants (every case)
     VF_CHECK(!o.early_delivery, "appdata-delivered-before-handshake-complete", "APP_DATA delivered while matrixSslHandshakeIsComplete()==false; %s", desc.c_str());
     std::string sig = v.sig.empty() ? "completed-illegal-trace" : v.sig;
@@ -654,7 +673,7 @@ static void prop(Tape &t, Ctx &c) {
     } else if (v.done_at >= 0) {
         // ---- legal trace (possibly followed by an illegal post-handshake message)
         c.count(v.viol_at >= 0 ? "verdict:legal-then-illegal" : "verdict:legal");
-        VF_CHECK(o.ever_complete, "legal-trace-not-completed", "victim did not complete a legal trace (rc %d, fatal alert from victim %d, puppet: %s); %s", o.last_rc, o.alert_from_victim, o.puppet_err.c_str(), desc.c_str());
+        VF_CHECK(o.ever_complete, hr_ignored ? "hello-request-neither-refused-nor-ignored" : "legal-trace-not-completed", "victim did not complete a legal trace (rc %d, fatal alert from victim %d, puppet: %s); %s", o.last_rc, o.alert_from_victim, o.puppet_err.c_str(), desc.c_str());
         VF_CHECK(o.puppet_fin_ok, "harness-puppet-finished-mismatch", "victim completed but its Finished does not verify against the puppet's transcript (%s); %s", o.puppet_err.c_str(), desc.c_str());
         Bytes want; for (size_t i = 0; i < it.size(); i++) { if (v.viol_at >= 0 && (int) i >= v.viol_at) break; if (it[i].st.msg == pup::M_APPDATA) want.insert(want.end(), it[i].st.payload.begin(), it[i].st.payload.end()); }
         bool post_junk = false; if (dtls_mode) for (size_t i = (size_t) v.done_at + 1; i < it.size(); i++) if (it[i].st.msg != pup::M_APPDATA) post_junk = true;
